@@ -531,9 +531,53 @@ func drawCase(t *rapid.T, maxActs int) *Case {
 					still = true
 				}
 			}
-			if !still && rapid.IntRange(0, 2).Draw(t, "rebuild") == 0 {
+			if !still && rapid.IntRange(0, 1).Draw(t, "rebuild") == 0 {
 				c.Acts = append(c.Acts, Act{Kind: ARebuild, File: f})
+				if rapid.IntRange(0, 3).Draw(t, "reopen-after-rebuild") > 0 {
+					// the data source that was just closed is opened again on the new
+					// file and asked the same kind of questions: whatever the driver
+					// remembers about a data source must not outlive its last handle
+					last := closedDSN[len(closedDSN)-1]
+					a := Act{Kind: AOpen, File: last[0], Opt: last[1], Via: last[2], Slot: slot}
+					open[slot] = last
+					c.Acts = append(c.Acts, a)
+					for k, nq := 0, rapid.IntRange(1, 4).Draw(t, "nq-after-rebuild"); k < nq; k++ {
+						c.Acts = append(c.Acts, Act{Kind: AQuery + rapid.IntRange(0, 1).Draw(t, "prep"), Slot: slot, Q: rapid.IntRange(0, 8).Draw(t, "q")})
+					}
+				}
 			}
+		}
+	}
+	return c
+}
+
+// drawReincarnation: one data source is used, closed completely, its file is
+// replaced by an index of other content, and the same data source is opened
+// and asked the same questions again - twice.  Whatever the driver remembers
+// about a data source must die with its last handle.
+func drawReincarnation(t *rapid.T) *Case {
+	c := drawCase(t, 2)
+	c.Acts = nil
+	file := rapid.IntRange(0, len(c.Files)-1).Draw(t, "rfile")
+	if file < len(c.Broken) {
+		c.Broken[file] = BOK
+	}
+	opt := rapid.IntRange(0, len(optStrings)-1).Draw(t, "ropt")
+	via := 0
+	if rapid.IntRange(0, 3).Draw(t, "ralias") == 0 {
+		via = rapid.IntRange(1, fix.NVia-1).Draw(t, "rvia")
+	}
+	for round := 0; round < 3; round++ {
+		c.Acts = append(c.Acts, Act{Kind: AOpen, Slot: 0, File: file, Opt: opt, Via: via})
+		for q := 0; q < 9; q++ {
+			c.Acts = append(c.Acts, Act{Kind: AQuery + (q+round)%2, Slot: 0, Q: q})
+		}
+		if round == 1 && rapid.Bool().Draw(t, "rburst") {
+			c.Acts = append(c.Acts, Act{Kind: ABurst, Slot: 0, N: 4, Q: rapid.IntRange(0, 8).Draw(t, "rbq")})
+		}
+		c.Acts = append(c.Acts, Act{Kind: AClose, Slot: 0})
+		if round < 2 {
+			c.Acts = append(c.Acts, Act{Kind: ARebuild, File: file})
 		}
 	}
 	return c
@@ -706,6 +750,7 @@ func replay(cf *evid.CaseFile) error {
 func TestQuick(t *testing.T) {
 	fix.Pinned(t, prop, replay)
 	fix.Check(t, "history", 150, func(rt *rapid.T) { run(rt, drawCase(rt, 15)) })
+	fix.Check(t, "reincarnation", 40, func(rt *rapid.T) { run(rt, drawReincarnation(rt)) })
 	fix.Check(t, "churn", 12, func(rt *rapid.T) { runChurn(rt, drawChurn(rt)) })
 }
 
@@ -714,6 +759,7 @@ func TestThorough(t *testing.T) {
 		fix.Pinned(t, prop, replay)
 	}
 	fix.Check(t, "history", 1500, func(rt *rapid.T) { run(rt, drawCase(rt, 40)) })
+	fix.Check(t, "reincarnation", 300, func(rt *rapid.T) { run(rt, drawReincarnation(rt)) })
 	fix.Check(t, "churn", 80, func(rt *rapid.T) { runChurn(rt, drawChurn(rt)) })
 }
 
